@@ -58,7 +58,7 @@ func clBuild(cfg *config) (string, error) {
 //
 // cl cmd=<convert|gopro.convert|gopro.laptimes|gopro.render> which=<explicit|cwd|home|both|none|missing>
 //    F=<flag:kind:hexvalue,…|~> C=<dotted.path:kind:hexvalue,…|~> H=<same, the home file when which=both|~>
-//    io=<f|s><f|o> in=<hex input|->
+//    io=<f|s><f|o>[x] in=<hex input|->      (x: the output file exists already, with longer content)
 //
 // kinds: s string, b bool, i int, f float (decimal text), l string list (hex items joined by +), d date
 
@@ -438,6 +438,10 @@ func clRun(cfg *config, toks []string) string {
 		}
 		if iomode[1] == 'f' {
 			outArg = "out.hlptr"
+			if len(iomode) > 2 && iomode[2] == 'x' {
+				// the output file already exists and is longer than anything convert will write
+				os.WriteFile(outPath, bytes.Repeat([]byte("STALE CONTENT OF AN EARLIER RUN\n"), 4000), 0o644)
+			}
 		}
 		args = append(args, inArg, outArg)
 	case "gopro.laptimes":
@@ -647,7 +651,8 @@ func clValue(r *rng, cmd string, o clOpt, src int) string {
 		}
 		var items []string
 		for k := 0; k < n; k++ {
-			items = append(items, hexStr(pick(r, []string{"Me", "Other", "a b", "wet", fmt.Sprintf("t%d", src)})))
+			// list values are taken literally, one per flag: commas, quotes and the empty string included
+			items = append(items, hexStr(pick(r, []string{"Me", "Other", "a b", "wet", fmt.Sprintf("t%d", src), `"wet"`, `5" exhaust`, "a,b", ""})))
 		}
 		return strings.Join(items, "+")
 	case "d":
@@ -717,6 +722,9 @@ func genCL(cfg *config, r *rng, i int, s *sink) string {
 	}
 	in := "-"
 	io := pick(r, []string{"ff", "fo", "sf", "so"})
+	if io[1] == 'f' && r.chance(1, 2) {
+		io += "x" // over an existing, longer file
+	}
 	switch cmd {
 	case "convert":
 		text, _ := cvLog(r, s, 2, 4, false, 1653983971)
@@ -764,5 +772,8 @@ func corpusCL(cfg *config) []string {
 		// an empty flag value beats the config file
 		"cl cmd=convert which=cwd F=track:s:- C=convert.decoder:s:" + hexStr("trackaddict") + ",convert.encoder:s:" + hexStr("laptimer") + ",convert.track:s:" + hexStr("FromConfig") +
 			" H=~ io=so in=" + hexStr("Time,UTC Time,Lap,GPS_Update,Latitude,Longitude\n0.010,1653983971.010,0,1,50.1,-0.7\n"),
+		// the named output file exists already and is longer than the new document
+		"cl cmd=convert which=none F=~ C=~ H=~ io=ffx in=" + hexStr("Time,UTC Time,Lap,GPS_Update,Latitude,Longitude\n0.010,1653983971.010,0,1,50.1,-0.7\n"),
+		"cl cmd=convert which=none F=compress:b:" + hexStr("true") + " C=~ H=~ io=sfx in=" + hexStr("Time,UTC Time,Lap,GPS_Update,Latitude,Longitude\n0.010,1653983971.010,0,1,50.1,-0.7\n"),
 	}
 }
